@@ -67,7 +67,7 @@ func (p *Paragraph) WriteTo(out io.Writer) error {
 		/* Fold line by line: every continuation line gets its leading
 		 * space, and an empty line is written as " .". */
 		value := lines[0]
-		if strings.HasPrefix(value, " ") || strings.HasPrefix(value, "\t") {
+		if strings.TrimLeftFunc(value, unicode.IsSpace) != value {
 			/* The reader strips blanks around the first line, so a
 			 * first line that starts with indentation has to start on
 			 * a continuation line to keep it. */
